@@ -211,14 +211,15 @@ pub fn gen(rng: &mut Rng, thorough: bool, em: &mut Emitter) {
             }
         }
     }
-    // 4. RFC 3597 forms for every value: quick = exact word + one random case variant, kind by
-    //    kind; thorough = additionally all-lower-case and a second random variant
+    // 4. RFC 3597 forms for every value: quick = one random case variant of the word per value and
+    //    kind (the exact upper-case spelling of every non-mnemonic value is already exercised by
+    //    `crt`); thorough = additionally the exact word, all-lower-case and a second random variant
     for kind in KINDS {
         let w = word_of(kind);
         for v in 0..=65535u32 {
-            emit_parse(em, kind, &format!("{}{}", w, v));
             emit_parse(em, kind, &format!("{}{}", random_case(rng, w), v));
             if thorough {
+                emit_parse(em, kind, &format!("{}{}", w, v));
                 emit_parse(em, kind, &format!("{}{}", w.to_ascii_lowercase(), v));
                 emit_parse(em, kind, &format!("{}{}", random_case(rng, w), v));
             }
